@@ -1,5 +1,5 @@
 // ===== U6 GC harness (hand-written; appended inside module `vm`, so private items of the
-// real vm.rs are visible).  `__N__`, `__S__`, `__U__` are substituted by units/u6_gc/__init__.py.
+// real vm.rs are visible).  
 //
 // Colour convention read off the real code (gc_visited is initialised to `true` and never
 // changed): an object is MARKED in the current cycle iff `header.visited == gc_visited`;
@@ -11,8 +11,6 @@
 pub(crate) mod u6 {
     use super::*;
 
-    pub const N: usize = __N__; // max heap objects in an arbitrary world
-    pub const SMAX: usize = __S__; // max operand-stack length in an arbitrary world
 
     // ------------------------------------------------------------------ views on real objects
     pub fn fields<'a>(h: *mut ObjectHeader) -> &'a [Value] {
@@ -127,11 +125,16 @@ pub(crate) mod u6 {
         true
     }
 
-    /// THE INVARIANT (I0..I7).  Executable, over the real thread fields.
-    pub fn inv(t: &VmGreenThread) -> bool {
+    /// THE INVARIANT, in four conjuncts (so that the native enumerator can prune early with the
+    /// very same code).  Executable, over the real thread fields.
+    ///
+    /// state_ok:  I7 gc_visited is the constant `true` the constructors hard-code;
+    ///            Sweeping{index} has index <= len; grey objects exist only while Marking;
+    ///            I0 heap_list has no duplicates, holds no no_gc object (and no channel: excluded);
+    ///            I2 gray_stack ⊆ marked ⊆ heap_list (static strings tolerated, see below);
+    ///            Idle: the whole heap is white;  I5b Sweeping: positions < index are white again.
+    pub fn state_ok(t: &VmGreenThread) -> bool {
         let n = t.heap_list.len();
-        // I7: constructors hard-code `visited: true` for "marked", the rest of the collector
-        // compares with gc_visited; the two agree only because gc_visited is constantly true.
         if !t.gc_visited {
             return false;
         }
@@ -143,11 +146,9 @@ pub(crate) mod u6 {
         if sweeping && idx > n {
             return false;
         }
-        // grey objects exist only while Marking
         if !marking && !t.gray_stack.is_empty() {
             return false;
         }
-        // I0: heap_list has no duplicates
         let mut i = 0;
         while i < n {
             let mut j = i + 1;
@@ -159,8 +160,8 @@ pub(crate) mod u6 {
             }
             i += 1;
         }
-        // I2: gray_stack ⊆ marked ⊆ heap_list.  (write_barrier has no `no_gc` test, so a static
-        // string stored into a marked object is shaded and pushed too; harmless, allowed here.)
+        // (write_barrier has no `no_gc` test, so a static string stored into a marked object is
+        // shaded and pushed too; process_gray treats it as a leaf; harmless, tolerated here.)
         let mut g = 0;
         while g < t.gray_stack.len() {
             let h = t.gray_stack[g];
@@ -174,19 +175,6 @@ pub(crate) mod u6 {
             }
             g += 1;
         }
-        // roots: operand stack / locals and the two string-operation registers
-        let mut s = 0;
-        while s < t.value_stack.len() {
-            if !val_ok(t, &t.value_stack[s], false) {
-                return false;
-            }
-            s += 1;
-        }
-        if !val_ok(t, &t.string_operand1, false) || !val_ok(t, &t.string_operand2, false) {
-            return false;
-        }
-        // objects
-        let mut sum: usize = 0;
         let mut p = 0;
         while p < n {
             let h = t.heap_list[p];
@@ -195,31 +183,74 @@ pub(crate) mod u6 {
                 return false;
             }
             if matches!(kind, ObjectKind::Channel) {
-                return false; // channels are outside this unit (stated)
+                return false;
             }
             let m = marked(t, h);
             if !marking && !sweeping && m {
-                return false; // Idle: the whole heap is white
+                return false;
             }
             if sweeping && p < idx && m {
-                return false; // I5: survivors already passed by sweep were reset to white
-            }
-            sum += unsafe { (*h).nbytes() };
-            if safe_at(t, p) {
-                let black = marking && m && !on_gray(t, h);
-                let fs = fields(h);
-                let mut f = 0;
-                while f < fs.len() {
-                    if !val_ok(t, &fs[f], black) {
-                        return false;
-                    }
-                    f += 1;
-                }
+                return false;
             }
             p += 1;
         }
-        // I6
+        true
+    }
+    /// obj_ok(p): I1+I3+I4/I5a for the object at position p: if it is SAFE, each of its fields is
+    /// a scalar, a static string, or a well-typed pointer to a live SAFE object -- a MARKED one
+    /// if p is black (Marking, marked, not on gray_stack).  Objects sweep is about to free are
+    /// unconstrained (they may point to already freed garbage; nobody reads them).
+    pub fn obj_ok(t: &VmGreenThread, p: usize) -> bool {
+        let h = t.heap_list[p];
+        if safe_at(t, p) {
+            let black = t.gc_state == GcState::Marking && marked(t, h) && !on_gray(t, h);
+            let fs = fields(h);
+            let mut f = 0;
+            while f < fs.len() {
+                if !val_ok(t, &fs[f], black) {
+                    return false;
+                }
+                f += 1;
+            }
+        }
+        true
+    }
+    /// roots_ok: every slot of value_stack (operands and locals) and both string-operation
+    /// registers hold a scalar, a static string or a well-typed pointer to a live SAFE object.
+    /// NOTE: while Marking a root may be WHITE -- stack writes have no barrier -- so a correct
+    /// collector must look at the roots again before it starts sweeping.
+    pub fn roots_ok(t: &VmGreenThread) -> bool {
+        let mut s = 0;
+        while s < t.value_stack.len() {
+            if !val_ok(t, &t.value_stack[s], false) {
+                return false;
+            }
+            s += 1;
+        }
+        val_ok(t, &t.string_operand1, false) && val_ok(t, &t.string_operand2, false)
+    }
+    /// size_ok: I6 heap_size == sum of nbytes over heap_list
+    pub fn size_ok(t: &VmGreenThread) -> bool {
+        let mut sum: usize = 0;
+        let mut p = 0;
+        while p < t.heap_list.len() {
+            sum += unsafe { (*t.heap_list[p]).nbytes() };
+            p += 1;
+        }
         sum == t.heap_size
+    }
+    pub fn inv(t: &VmGreenThread) -> bool {
+        if !state_ok(t) {
+            return false;
+        }
+        let mut p = 0;
+        while p < t.heap_list.len() {
+            if !obj_ok(t, p) {
+                return false;
+            }
+            p += 1;
+        }
+        roots_ok(t) && size_ok(t)
     }
 
     // ------------------------------------------------------------------ construction
@@ -265,18 +296,20 @@ pub(crate) mod u6 {
         t.arm_ArrayPop(0x8000, 0);
         let e_v = t.top();
         let e_ptr = e_v.0 as *mut ObjectHeader;
-        // collector increments with any budget that finishes the phase
-        let mut guard = 0;
-        while t.gc_state == GcState::Marking && guard < 8 {
-            let mut b = usize::MAX;
+        // collector increments, budget large enough to finish each phase (the real pacing:
+        // GC_STEP_FACTOR * gc_debt, and gc_debt is never reset)
+        let mut b = usize::MAX;
+        t.process_gray(&mut b);
+        if t.gc_state == GcState::Marking {
+            b = usize::MAX;
             t.process_gray(&mut b);
-            guard += 1;
         }
-        guard = 0;
-        while matches!(t.gc_state, GcState::Sweeping { .. }) && guard < 8 {
-            t.sweep(usize::MAX);
-            guard += 1;
+        if t.gc_state == GcState::Marking {
+            b = usize::MAX;
+            t.process_gray(&mut b);
         }
+        t.sweep(usize::MAX);
+        t.sweep(usize::MAX);
         let _ = arr_v;
         let still = pos(t, e_ptr) < t.heap_list.len();
         let payload = if still { Some(e_v.get_variant(t).val.get_int(t)) } else { None };
@@ -307,13 +340,14 @@ pub(crate) mod u6 {
     }
 
     // ================================================================== Kani only
-    // Arbitrary-but-invariant worlds.  To stay inside CBMC's budget every Vec has a CONCRETE
-    // length when the operation starts and every object a CONCRETE kind; what is symbolic is
-    // the content of every field / stack slot / string register (scalar with arbitrary bits, or
-    // a pointer to any object of the world, or the static string), every colour bit, the
-    // collector state (Idle / Marking with any grey multiset / Sweeping at any index) and the
-    // pacing counters.  Template T1: heap_list = [Array(len 2), Struct(2 fields), Enum(1 field)],
-    // template T2: [Enum, Array(len 1), String, Struct(1 field)] ; operand stack of 3 slots.
+    // Arbitrary-but-invariant worlds for CBMC.  Measured limits (see __init__.py): an arbitrary
+    // heap with symbolic object kinds / symbolic Vec lengths does not terminate in CBMC's
+    // budget, so here every object has a CONCRETE kind and every Vec a CONCRETE length when
+    // the operation starts.  Symbolic: the content of every field / stack slot / string register
+    // (Int with arbitrary bits, or a pointer to any object of the world, or the static string),
+    // every colour bit, the collector state, the pacing counters.  The full shape bound
+    // (<= 3 objects of any kind, any grey order, any stack length) is covered by the native
+    // exhaustive enumerator (exhaustive.rs) running the same `inv`.
     #[cfg(kani)]
     pub struct World {
         pub t: VmGreenThread,
@@ -323,6 +357,23 @@ pub(crate) mod u6 {
     }
     #[cfg(kani)]
     pub const NMAX: usize = 4;
+    #[cfg(kani)]
+    pub const RESERVE: usize = 12;
+    pub const ANY_STATE: u8 = 255;
+
+    /// Stand-in for Vec::push in harnesses whose vectors have pre-reserved capacity: appends
+    /// exactly like push but never reallocates; exceeding the reserve is a reported FAILURE
+    /// ("U6-STUB"), not an assumption.  (Vec::push on a vector of symbolic length makes CBMC
+    /// explore a reallocation at every push.)
+    #[cfg(kani)]
+    pub fn push_nogrow<T, A: std::alloc::Allocator>(v: &mut Vec<T, A>, value: T) {
+        let len = v.len();
+        assert!(len < v.capacity(), "U6-STUB: pre-reserved capacity exceeded");
+        unsafe {
+            std::ptr::write(v.as_mut_ptr().add(len), value);
+            v.set_len(len + 1);
+        }
+    }
 
     #[cfg(kani)]
     pub fn any_val(objs: &[*mut ObjectHeader; NMAX], n: usize, stat: *mut ObjectHeader) -> Value {
@@ -336,9 +387,17 @@ pub(crate) mod u6 {
         }
     }
 
+    /// template 1: [Array(2), Struct(2), Enum]   template 2: [Enum, Array(1), String, Struct(1)]
+    /// template 3: [Array(1), Enum] (the shape of the pop-during-mark scenario)
+    /// state: 0 Idle, 1 Marking, 2 Sweeping, ANY_STATE symbolic.
+    /// gray: bitmask of objects on the grey stack (in index order), or 255 = symbolic subset.
     #[cfg(kani)]
-    pub fn any_world(template: u8, with_static: bool) -> World {
+    pub fn any_world(template: u8, with_static: bool, state: u8, gray: u8) -> World {
         let mut t = mk_thread(if with_static { vec![String::from("s")] } else { vec![] });
+        t.heap_list = Vec::with_capacity(RESERVE);
+        t.value_stack = Vec::with_capacity(RESERVE);
+        t.gray_stack = Vec::with_capacity(RESERVE);
+        t.pc = ProgramCounter(5);
         let stat: *mut ObjectHeader =
             if with_static { t.shared.static_strings[0] as *mut ObjectHeader } else { std::ptr::null_mut() };
         let z = Value::from(0 as AbraInt);
@@ -359,20 +418,9 @@ pub(crate) mod u6 {
                 objs[3] = StructObject::new(vec![z], &mut t) as *mut ObjectHeader;
                 n = 4;
             }
-            3 => {
-                objs[0] = ArrayObject::new(vec![z], &mut t) as *mut ObjectHeader;
-                objs[1] = EnumObject::new(kani::any(), z, &mut t) as *mut ObjectHeader;
-                n = 2;
-            }
-            4 => {
-                objs[0] = ArrayObject::new(vec![z, z], &mut t) as *mut ObjectHeader;
-                objs[1] = ArrayObject::new(vec![z], &mut t) as *mut ObjectHeader;
-                objs[2] = ArrayObject::new(vec![z], &mut t) as *mut ObjectHeader;
-                n = 3;
-            }
             _ => {
                 objs[0] = ArrayObject::new(vec![z], &mut t) as *mut ObjectHeader;
-                objs[1] = ArrayObject::new(vec![z], &mut t) as *mut ObjectHeader;
+                objs[1] = EnumObject::new(kani::any(), z, &mut t) as *mut ObjectHeader;
                 n = 2;
             }
         }
@@ -386,7 +434,9 @@ pub(crate) mod u6 {
             }
             i += 1;
         }
-        t.value_stack = vec![any_val(&objs, n, stat), any_val(&objs, n, stat), any_val(&objs, n, stat)];
+        t.value_stack.push(any_val(&objs, n, stat));
+        t.value_stack.push(any_val(&objs, n, stat));
+        t.value_stack.push(any_val(&objs, n, stat));
         t.string_operand1 = any_val(&objs, n, stat);
         t.string_operand2 = any_val(&objs, n, stat);
         i = 0;
@@ -394,19 +444,20 @@ pub(crate) mod u6 {
             unsafe { (*objs[i]).visited = kani::any() };
             i += 1;
         }
-        t.gray_stack = Vec::with_capacity(8);
-        match kani::any::<u8>() {
+        let st = if state == ANY_STATE { kani::any::<u8>() } else { state };
+        match st {
             0 => t.gc_state = GcState::Idle,
             1 => {
                 t.gc_state = GcState::Marking;
                 i = 0;
                 while i < n {
-                    if kani::any() {
+                    let on = if gray == 255 { kani::any() } else { (gray >> i) & 1 == 1 };
+                    if on {
                         t.gray_stack.push(objs[i]);
                     }
                     i += 1;
                 }
-                if with_static && kani::any() {
+                if with_static && gray == 255 && kani::any() {
                     unsafe { (*stat).visited = true };
                     t.gray_stack.push(stat);
                 }
@@ -422,10 +473,10 @@ pub(crate) mod u6 {
         World { t, objs, n, stat }
     }
 
-    // ------------------------------------------------------------------ scenario
+    // ------------------------------------------------------------------ C06 scenario (concrete, multi-step)
     #[cfg(kani)]
     #[kani::proof]
-    #[kani::unwind(__U__)]
+    #[kani::unwind(5)]
     fn scenario_pop_during_mark_h() {
         let mut t = mk_thread(vec![]);
         let (still, payload) = scenario_pop_during_mark(&mut t);
@@ -435,13 +486,14 @@ pub(crate) mod u6 {
         std::mem::forget(t);
     }
 
-    // ------------------------------------------------------------------ collector steps
+    // ------------------------------------------------------------------ C06 collector steps (symbolic contents)
+    /// one marking increment that scans exactly one grey object (budget 1: every object is
+    /// larger), grey stack = [objs[g]]; contents / colours / roots symbolic
     #[cfg(kani)]
-    fn process_gray_body(template: u8) {
-        let mut w = any_world(template, false);
+    fn process_gray_one(template: u8, g: u8) {
+        let mut w = any_world(template, false, 1, 1 << g);
         kani::assume(inv(&w.t));
-        kani::assume(w.t.gc_state == GcState::Marking); // only call site: maybe_gc, Marking arm
-        let mut batch: usize = kani::any();
+        let mut batch: usize = 1;
         w.t.process_gray(&mut batch);
         kani::cover!(matches!(w.t.gc_state, GcState::Sweeping { .. }), "reachable: switched to Sweeping");
         kani::cover!(w.t.gc_state == GcState::Marking, "reachable: still Marking");
@@ -450,26 +502,215 @@ pub(crate) mod u6 {
     }
     #[cfg(kani)]
     #[kani::proof]
-    #[kani::unwind(__U__)]
-    fn process_gray_preserves_inv_t1() {
-        process_gray_body(1)
+    #[kani::unwind(5)]
+    #[kani::stub(std::vec::Vec::push, push_nogrow)]
+    fn process_gray_one_array() {
+        process_gray_one(3, 0)
     }
     #[cfg(kani)]
     #[kani::proof]
-    #[kani::unwind(__U__)]
-    fn process_gray_preserves_inv_t3() {
-        process_gray_body(3)
+    #[kani::unwind(5)]
+    #[kani::stub(std::vec::Vec::push, push_nogrow)]
+    fn process_gray_one_enum() {
+        process_gray_one(3, 1)
     }
+    #[cfg(kani)]
+    #[kani::proof]
+    #[kani::unwind(5)]
+    #[kani::stub(std::vec::Vec::push, push_nogrow)]
+    fn process_gray_one_struct_t1() {
+        process_gray_one(1, 1)
+    }
+
+    #[cfg(kani)]
+    #[kani::proof]
+    #[kani::unwind(5)]
+    #[kani::stub(std::vec::Vec::push, push_nogrow)]
+    fn start_mark_phase_preserves_inv() {
+        let mut w = any_world(3, false, 0, 0);
+        kani::assume(inv(&w.t));
+        w.t.start_mark_phase();
+        kani::cover!(!w.t.gray_stack.is_empty(), "reachable: some root shaded");
+        assert!(w.t.gc_state == GcState::Marking);
+        assert!(inv(&w.t), "U6: Inv preserved by start_mark_phase");
+        std::mem::forget(w);
+    }
+
+    /// one sweep increment at a concrete index with budget 1 (exactly one object examined):
+    /// Inv preserved, only an unmarked object at position >= index may go, progress.
+    #[cfg(kani)]
+    fn sweep_one(template: u8, index: usize) {
+        let mut w = any_world(template, false, 0, 0);
+        w.t.gc_state = GcState::Sweeping { index };
+        kani::assume(inv(&w.t));
+        let victim = w.t.heap_list[index];
+        let was_marked = marked(&w.t, victim);
+        let len0 = w.t.heap_list.len();
+        w.t.sweep(1);
+        kani::cover!(w.t.heap_list.len() < len0, "reachable: freed one");
+        kani::cover!(w.t.heap_list.len() == len0, "reachable: kept one");
+        assert!(inv(&w.t), "U6: Inv preserved by sweep");
+        // frees only unmarked
+        let gone = pos(&w.t, victim) >= w.t.heap_list.len();
+        assert!(!(gone && was_marked), "U6: sweep freed a marked object");
+        assert!(w.t.heap_list.len() + 1 >= len0, "U6: sweep(1) examines one object");
+        // progress
+        match w.t.gc_state {
+            GcState::Idle => assert!(w.t.last_gc_heap_size == w.t.heap_size),
+            GcState::Sweeping { index: i2 } => assert!(w.t.heap_list.len() - i2 < len0 - index, "U6: sweep made no progress"),
+            GcState::Marking => assert!(false, "U6: sweep went back to Marking"),
+        }
+        std::mem::forget(w);
+    }
+    #[cfg(kani)]
+    #[kani::proof]
+    #[kani::unwind(5)]
+    fn sweep_one_at0() {
+        sweep_one(3, 0)
+    }
+    #[cfg(kani)]
+    #[kani::proof]
+    #[kani::unwind(5)]
+    fn sweep_one_at1() {
+        sweep_one(3, 1)
+    }
+
+    #[cfg(kani)]
+    #[kani::proof]
+    #[kani::unwind(5)]
+    #[kani::stub(std::vec::Vec::push, push_nogrow)]
+    fn write_barrier_post() {
+        let mut w = any_world(3, true, ANY_STATE, 255);
+        kani::assume(inv(&w.t));
+        let child = any_val(&w.objs, w.n, w.stat);
+        kani::assume(val_ok(&w.t, &child, false));
+        let parent = w.objs[0];
+        let marking = w.t.gc_state == GcState::Marking;
+        let parent_marked = marked(&w.t, parent);
+        let child_h = child.0 as *mut ObjectHeader;
+        let child_is_obj = child.1.is_pointer() && pos(&w.t, child_h) < w.t.heap_list.len();
+        let child_white = child_is_obj && !marked(&w.t, child_h);
+        let glen = w.t.gray_stack.len();
+        w.t.write_barrier(parent, child);
+        kani::cover!(marking && parent_marked && child_white, "reachable: barrier fires");
+        if marking && parent_marked && child_white {
+            assert!(marked(&w.t, child_h) && on_gray(&w.t, child_h), "U6: barrier must shade the white child of a marked parent");
+        } else if !child.1.is_pointer() || child_is_obj {
+            assert!(w.t.gray_stack.len() == glen, "U6: barrier must not touch anything else");
+        }
+        assert!(inv(&w.t), "U6: Inv preserved by write_barrier");
+        std::mem::forget(w);
+    }
+
+    // ------------------------------------------------------------------ C06 mutator arms (symbolic contents, fixed registers)
+    #[cfg(kani)]
+    #[kani::proof]
+    #[kani::unwind(5)]
+    #[kani::stub(std::vec::Vec::push, push_nogrow)]
+    fn arm_ArrayPop_preserves_inv() {
+        let mut w = any_world(3, false, ANY_STATE, 255);
+        kani::assume(inv(&w.t));
+        // array in local slot 0 (as in `array_pop 2 1` of real bytecode), result pushed
+        w.t.stack_base = 0;
+        let v = w.t.value_stack[0];
+        kani::assume(v.1 == ValueTag::Array && !fields(v.0 as *mut ObjectHeader).is_empty());
+        w.t.arm_ArrayPop(TOPREG, 0);
+        kani::cover!(true, "reachable");
+        assert!(inv(&w.t), "U6: Inv preserved by ArrayPop");
+        std::mem::forget(w);
+    }
+    #[cfg(kani)]
+    pub const TOPREG: u16 = 0x8000;
+    #[cfg(kani)]
+    #[kani::proof]
+    #[kani::unwind(5)]
+    #[kani::stub(std::vec::Vec::push, push_nogrow)]
+    fn arm_SetIndex_preserves_inv() {
+        let mut w = any_world(3, false, ANY_STATE, 255);
+        // stack: [array, index, rvalue]; SetIndex(Top, Top)
+        let idx: AbraInt = kani::any();
+        w.t.value_stack[1] = Value::from(idx);
+        kani::assume(inv(&w.t));
+        kani::assume(w.t.value_stack[0].1 == ValueTag::Array);
+        let ok = w.t.arm_SetIndex(TOPREG, TOPREG);
+        kani::cover!(ok, "reachable: stored");
+        assert!(inv(&w.t), "U6: Inv preserved by SetIndex");
+        std::mem::forget(w);
+    }
+    #[cfg(kani)]
+    #[kani::proof]
+    #[kani::unwind(5)]
+    #[kani::stub(std::vec::Vec::push, push_nogrow)]
+    fn arm_ConstructVariant_preserves_inv() {
+        let mut w = any_world(3, false, ANY_STATE, 255);
+        kani::assume(inv(&w.t));
+        w.t.arm_ConstructVariant(kani::any());
+        kani::cover!(true, "reachable");
+        assert!(inv(&w.t), "U6: Inv preserved by ConstructVariant (allocation in any collector state)");
+        std::mem::forget(w);
+    }
+
+    // ------------------------------------------------------------------ C07
+    /// Dropping a thread releases every object of heap_list exactly once with its own layout
+    /// (CBMC: double free / size-mismatch / leak checks) and heap_size returns to 0.
+    #[cfg(kani)]
+    #[kani::proof]
+    #[kani::unwind(6)]
+    fn drop_thread_frees_all() {
+        let w = any_world(2, false, ANY_STATE, 255);
+        let World { t, .. } = w;
+        // an array that has grown (heap_size accounting of ArrayPush)
+        let mut t = std::mem::ManuallyDrop::new(t);
+        t.value_stack.clear();
+        let arr1 = ptr_val(t.heap_list[1]);
+        t.value_stack.push(arr1);
+        t.value_stack.push(Value::from(9 as AbraInt));
+        t.stack_base = 0;
+        t.arm_ArrayPush(0, TOPREG); // rvalue = Top (9), array = local 0
+        assert!(size_ok(&t), "U6: heap_size == sum of nbytes before drop");
+        kani::cover!(t.heap_list.len() == 4, "reachable");
+        unsafe { std::mem::ManuallyDrop::drop(&mut t) };
+        assert!(t.heap_size == 0, "U6: heap_size returns to 0 after drop");
+    }
+    /// The owner of static_strings must release what StringObject::new_static leaked: build the
+    /// runtime exactly as an embedder does, drop it, nothing may stay allocated.
     #[cfg(kani)]
     #[kani::proof]
     #[kani::unwind(4)]
-    fn process_gray_preserves_inv_t4() {
-        process_gray_body(4)
+    fn drop_runtime_frees_static_strings() {
+        let program = CompiledProgram {
+            instructions: vec![],
+            int_constants: vec![],
+            float_constants: vec![],
+            static_strings: vec![String::from("s")],
+            filename_arena: vec![],
+            function_name_arena: vec![],
+            filename_table: vec![],
+            lineno_table: vec![],
+            function_name_table: vec![],
+        };
+        let rt = Runtime::new(program);
+        kani::cover!(rt.run_queue.len() == 1, "reachable");
+        drop(rt);
     }
+    /// control for the leak check: the same runtime without string constants leaks nothing
     #[cfg(kani)]
     #[kani::proof]
     #[kani::unwind(4)]
-    fn process_gray_preserves_inv_t5() {
-        process_gray_body(5)
+    fn drop_runtime_no_strings_control() {
+        let program = CompiledProgram {
+            instructions: vec![],
+            int_constants: vec![],
+            float_constants: vec![],
+            static_strings: vec![],
+            filename_arena: vec![],
+            function_name_arena: vec![],
+            filename_table: vec![],
+            lineno_table: vec![],
+            function_name_table: vec![],
+        };
+        let rt = Runtime::new(program);
+        kani::cover!(rt.run_queue.len() == 1, "reachable");
+        drop(rt);
     }
 }
